@@ -53,6 +53,11 @@ def _variants(ctx, F):
             continue
         hit = [f.key for f in reach.values() if any(lib.path_matches(f.key, p) or lib.path_matches(f.path, p) for p in pats)]
         reachable_builders[v] = hit
+    # representations constructed directly (VecIndex::<Variant> aggregates) in code reachable from the API
+    for v in variants:
+        made = sorted({f.key for f in reach.values() if lib.enum_constructions(f, 'VecIndex', v)})
+        if made:
+            reachable_builders[v] = sorted(set(reachable_builders.get(v, [])) | set(made))
     for m in METHODS:
         fn = ctx.need('AGREE-C14a', m)
         if fn is None:
